@@ -2804,6 +2804,7 @@ echs_instant_matches_p(rrulsp_t filt, echs_instant_t inst)
 	static size_t nwl;
 	static size_t iwl;
 	const size_t zwl = countof(wl) - GRP_CCH_OFF;
+	bool tight = false;
 
 	if (UNLIKELY(nwl > zwl)) {
 		goto never;
@@ -2815,7 +2816,12 @@ ffw:
 		/* refill filter list, start out with I */
 		echs_instant_t proto = inst;
 
-		proto.d = 0;
+		if (LIKELY(!tight)) {
+			/* the month of I, unless a whole list of them
+			 * lies before I, we'd be here for good then */
+			proto.d = 0;
+		}
+		tight = true;
 		for (size_t i = 0UL; i < zwl; i++) {
 			wl[i] = proto;
 		}
